@@ -161,6 +161,23 @@ func execGap(h GH, rec *pbt.Rec) error {
 		}
 	}
 	sort.Slice(leaves, func(i, j int) bool { return leaves[i] < leaves[j] })
+	// known finding F-C09-3: "last applied version 0" means both "nothing applied" and "event 0
+	// applied"; an EMPTY follower offered a log that starts at the second insertion, after a
+	// single-event first insertion (PreviousVersion 0), is not refused and ends up without version 0
+	if have == 0 && reported == 0 && len(h.Bulks[0]) == 1 && len(leaves) > 0 && leaves[0] == 1 && pbt.Known("F-C09-3") {
+		contiguous := true
+		for i, v := range leaves {
+			if v != uint64(i+1) {
+				contiguous = false
+			}
+		}
+		if contiguous {
+			rec.Count("excluded_by_known_finding:F-C09-3", 1)
+			x.Call(&xp.Req{Op: "store-close", Name: "f"}, 30*time.Second)
+			rec.Case(h, true)
+			return nil
+		}
+	}
 	for i, v := range leaves {
 		if v != uint64(i) {
 			return fmt.Errorf("%s succeeded, shipped %d batches, and the follower's history now jumps from version %d to %d: a gap was applied instead of refused", tag, shipped, i-1, v)
